@@ -121,6 +121,16 @@ def cases(tier, seed):
         d.update({"fields": ["temp", "density", "Z", "Zvar"], "payload": "pos" if vi % 2 else "signed", "layout": lay, "seed": seed})
         out.append({"kind": "user", "desc": d, "full": vi == 0 or tier == "thorough", "schedules": vi in (0, len(variants) - 1, len(variants) // 2),
                     "w": 6 if vi == 0 else 1})
+    if tier == "thorough":
+        # every recipe x kept-field string on the other hand-made meshes (1..3 levels, thin boxes) under every geometry incl. the
+        # extreme ones, each with a non-monotone multi-file layout on every level
+        for mi, mesh in enumerate(scope.named_meshes(3) + scope.thin_meshes(3)):
+            for gi, g in enumerate(list(scope.geometries(3)) + scope.extreme_geometries(3)):
+                d = dict(mesh)
+                d.update(g)
+                d.update({"fields": ["temp", "density", "Z", "Zvar"], "payload": ["signed", "pos"][(mi + gi) % 2], "seed": seed,
+                          "layout": [scope.layouts(len(b), 'idrev')[-1 - (gi % 2)] if len(b) > 1 else None for b in mesh["levels"]]})
+                out.append({"kind": "user", "desc": d, "full": True, "schedules": gi == mi % 6, "w": 6})
     # level directories named otherwise than Level_k
     d = dict(m)
     d.update(geo)
